@@ -23,6 +23,14 @@ Monitor clauses (computed from the implementation's dumps / operation history on
                       first decision persisted, else an empty filter over the adds)
   fwdpkg-isfull       IsFull() of a loaded filter ≠ "Contains(i) for every i < count"
   fwdpkg-state        state ≠ lockedIn / processed / completed as implied by the history
+  fwdpkg-ack-without-commitdiff  CRASH IMAGE after a committed write transaction (not only after a
+                      call): an add / settle-fail is marked acknowledged in a forwarding package
+                      although neither an earlier durable write nor a commit diff present in that
+                      image carries the response
+  crash-image-torn    the durable state after an intermediate write transaction of a call is
+                      neither the state before the call nor the state after it
+  (+ reload-error on every crash image; correspondence: `write-tx-count` — the code committed a
+   different number of write transactions in a call than the model's single atomic write)
   fwdpkg-op-failed    SetFwdFilter / AckAddHtlcs / AckSettleFails with valid references failed
                       (stream `fwdpkg`, FwdDriver.lean: the same clauses on two channels in one
                       channeldb with reload after every transaction, package removal, acks through
@@ -45,6 +53,7 @@ import LndModel.C02.Spec
 import LndModel.C02.Total
 import LndModel.C02.Lemmas
 import LndModel.C02.FwdDriver
+import LndModel.C02.TxAtomic
 
 open LndModel LndModel.Lines LndModel.C01 LndModel.C02
 
@@ -248,6 +257,15 @@ structure RevSeen where
   s : Int
 deriving Repr, Inhabited
 
+/-- the durable state right after one committed write transaction of a call in progress. -/
+structure MidImg where
+  tx : Nat
+  res : String
+  raw : List String := []
+  fwdD : List Fwd.Driver.LPkg := []
+  hasPend : Bool := false
+deriving Repr, Inhabited
+
 structure St where
   caseId : String := "0"
   lines : Nat := 0
@@ -293,6 +311,14 @@ structure St where
   fwdB : List FwdPkg := []
   fhA : List Fwd.Hist := []               -- history of every package (created with / acknowledged / decision)
   fhB : List Fwd.Hist := []
+  mids : List MidImg := []                -- crash images of the call in progress (several write txs)
+  midNode : String := ""
+  midN : Nat := 0
+  kFreshA : Bool := false                 -- the last K dump of the node is its current durable state
+  kFreshB : Bool := false
+  wtChecked : Nat := 0
+  wtWriting : Nat := 0
+  midChecked : Nat := 0
   linkOps : Nat := 0
   pkgDetailChecks : Nat := 0
   pkgPartial : Nat := 0
@@ -1032,10 +1058,96 @@ def dropStatus (line : String) : String :=
 def updK (s : St) (node : String) (f : KDump → KDump) : St :=
   if node == "A" then { s with kA := f s.kA } else { s with kB := f s.kB }
 
+/-- evaluate the crash images of the call that just ended.  `addAcks` / `sfAcks`: the
+    acknowledgements the commit diff of THIS call carries (a sign call), else empty. -/
+def evalMids (s : St) (addAcks sfAcks : List (Nat × Nat)) : IO St := do
+  if s.mids.isEmpty then return s
+  let node := s.midNode
+  let imgs := s.mids
+  let mut s := { s with mids := [] }
+  let fh := if node == "A" then s.fhA else s.fhB
+  let post := imgs.getLast?
+  let pre := s.kdump node
+  let preFresh := if node == "A" then s.kFreshA else s.kFreshB
+  for im in imgs do
+    s := { s with midChecked := s.midChecked + 1 }
+    if im.res != "ok" then
+      s ← monitor s "reload-error" s!"node={node} crash after write transaction {im.tx} of {s.midN} of one call: NewLightningChannel on the reloaded channel => {im.res}"
+    -- acknowledgements need a durable carrier
+    for p in im.fwdD do
+      let h := fh.find? (·.height == p.height)
+      let known (sel : Bool) (i : Nat) : Bool :=
+        (match h with | some h => (if sel then h.sfAcked else h.acked).contains i | none => false) ||
+        (im.hasPend && (if sel then sfAcks else addAcks).contains (p.height, i))
+      for (sel, d, nm) in [(false, p.ack, "add"), (true, p.sf, "settle/fail")] do
+        let bad := (List.range d.bits.length).filter (fun i => d.bits.getD i false && !known sel i)
+        if !bad.isEmpty then
+          s ← monitor s "fwdpkg-ack-without-commitdiff" s!"node={node} crash after write transaction {im.tx} of {s.midN} of one call: forwarding package {p.height} has {nm} indices {bad} marked acknowledged, but no earlier durable write acknowledged them and the reloaded channel has {if im.hasPend then "a pending commit diff that does not carry them" else "NO pending commit diff"}"
+    -- an intermediate image must be the state before or the state after the call
+    if im.tx < s.midN then
+      let eqPost := match post with | some q => q.raw == im.raw | none => false
+      if !eqPost && preFresh && pre.seen && pre.raw != im.raw then
+        let d := (im.raw.zip pre.raw).find? (fun (a, b) => a != b)
+        s ← monitor s "crash-image-torn" s!"node={node} the durable state after write transaction {im.tx} of {s.midN} of one call is neither the state before the call nor the state after it; first difference to the state before: {(d.map (fun q => (q.1.take 160).toString)).getD "(number of lines)"}"
+  return s
+
+def midLine (s : St) (ws : List String) (text : String) : IO St := do
+  match ws with
+  | "P" :: node :: rest =>
+    let im : MidImg := { tx := (kvNat? rest "tx").getD 0, res := resOf ws }
+    return { s with mids := s.mids ++ [im], midNode := node }
+  | _ =>
+    let upd (f : MidImg → MidImg) : St :=
+      match s.mids.reverse with
+      | last :: r => { s with mids := (f last :: r).reverse }
+      | [] => s
+    match ws with
+    | "K" :: _ => return upd fun im => { im with raw := im.raw ++ [dropStatus text] }
+    | "KC" :: _ :: which :: _ =>
+      return upd fun im => { im with raw := im.raw ++ [text], hasPend := im.hasPend || which == "P" }
+    | "KU" :: _ => return upd fun im => { im with raw := im.raw ++ [text] }
+    | "KF" :: _ :: toks => return upd fun im => { im with raw := im.raw ++ [text], fwdD := toks.filterMap parseFwdD }
+    | _ => mismatch s s!"unparsed crash-image line: {text.take 60}"
+
+/-- `WT node op= res= n=`: write transactions the code committed during one call vs the model's. -/
+def wtLine (s : St) (node : String) (rest : List String) : IO St := do
+  let op := (kv? rest "op").getD "?"
+  let res := (kv? rest "res").getD "?"
+  let n := (kvNat? rest "n").getD 0
+  let e : Err := if res == "ok" then .ok else .noPending
+  let want : Nat :=
+    if op.startsWith "link_" then (if res == "ok" then 1 else 0)
+    else match op with
+      | "sign" => opWriteTxs .sign e
+      | "revoke" => opWriteTxs .revoke e
+      | "recv_revoke" => opWriteTxs .receiveRevocation e
+      | _ => opWriteTxs (.updateFee 0) e
+  let mut s := { s with wtChecked := s.wtChecked + 1, wtWriting := s.wtWriting + (if n > 0 then 1 else 0), midN := n, midNode := node }
+  if n > 0 then
+    s := if node == "A" then { s with kFreshA := false } else { s with kFreshB := false }
+  if n != want && !s.borked then
+    s ← mismatch s s!"write-tx-count node={node} {op} => {res}: the model performs {want} atomic durable write(s), the code committed {n} write transactions"
+    s := { s with modelOk := true }
+  return s
+
 def step (s : St) (line : String) : IO St := do
   let s := { s with lines := s.lines + 1 }
   let ws := words line
+  -- the crash images of a call are complete when anything but an image / LS line follows
+  let s ← (if !s.mids.isEmpty && ws.head? != some "M" && ws.head? != some "LS" then evalMids s [] [] else pure s)
   match ws with
+  | "M" :: rest => midLine s rest ((line.drop 2).toString)
+  | "WT" :: node :: rest => wtLine s node rest
+  | "LS" :: node :: rest =>
+    -- acknowledgements carried by the commit diff of the sign call that just ended
+    let adds := Fwd.Driver.parseRefs ((kv? rest "addacks").getD "-")
+    let sfs := (Fwd.Driver.parseRefs ((kv? rest "sfacks").getD "-"))
+    let s ← evalMids s adds sfs
+    if (kv? rest "res") == some "ok" then
+      let fh := if node == "A" then s.fhA else s.fhB
+      let fh' := Fwd.histStep (Fwd.histStep fh (.ack false adds)) (.ack true sfs)
+      return if node == "A" then { s with fhA := fh' } else { s with fhB := fh' }
+    return s
   | "FACT" :: rest =>
     let chk (s : St) (key : String) (v : Nat) : IO St :=
       if kvNat? rest key == some v then pure s
@@ -1062,7 +1174,7 @@ def step (s : St) (line : String) : IO St := do
                       caseMonitor := 0, cap := cfgA.capacity, anchors := cfgA.anchors, cfgA := cfgA,
                       qab := [], qba := [], dA := {}, dB := {}, pD := {}, probing := none, kA := {}, kB := {},
                       kPrevA := none, kPrevB := none, reloaded := [], xA := [], xB := [], sentA := "-", sentB := "-",
-                      revsA := [], revsB := [], fwdA := [], fwdB := [], fhA := [], fhB := [], borked := false, taint := none, vA := 0, vB := 0,
+                      revsA := [], revsB := [], fwdA := [], fwdB := [], fhA := [], fhB := [], mids := [], kFreshA := false, kFreshB := false, borked := false, taint := none, vA := 0, vB := 0,
                       dirty := [], qlenAB := 0, qlenBA := 0, dead := false, resolved := [], hist := [] }
     if s.samples < 4 then
       IO.println s!"SAMPLE {line}"
@@ -1110,6 +1222,7 @@ def step (s : St) (line : String) : IO St := do
         store := intOf ((kv? rest "store").getD ""), prev := (kvNat? rest "prev").getD 0,
         curlog := (kvNat? rest "curlog").getD 0, storeAll := (kvNat? rest "storeall").getD 1 == 1, lsig := (kv? rest "lsig").getD "", lhs := (kv? rest "lhs").getD "",
         dsig := (kv? rest "dsig").getD "-", raw := [dropStatus line] }
+    let s := if node == "A" then { s with kFreshA := true } else { s with kFreshB := true }
     return updK s node (fun _ => k)
   | "KC" :: node :: which :: rest =>
     let dc := parseDiskCommit rest
@@ -1170,6 +1283,7 @@ def step (s : St) (line : String) : IO St := do
     let fh := if node == "A" then s.fhA else s.fhB
     let op := (kv? rest "op").getD "?"
     let mut s := { s with ops := s.ops + 1, linkOps := s.linkOps + 1, errKinds := bump s.errKinds ("link_" ++ op ++ "_" ++ impl) }
+    s := if node == "A" then { s with kFreshA := false } else { s with kFreshB := false }
     let known (h : Nat) : Bool := fh.any (·.height == h)
     let fop : Option Fwd.FOp := match op with
       | "setfwd" =>
@@ -1254,6 +1368,9 @@ def main (args : List String) : IO Unit := do
   IO.println s!"STAT stale_handle_writes_checked={s.staleWrites}"
   IO.println s!"STAT failed_write_operations={s.borkedOps}"
   IO.println s!"STAT chan_sync_resign_refused_by_channel_constraints={s.syncSignRefused}"
+  IO.println s!"STAT calls_with_write_tx_count_checked={s.wtChecked}"
+  IO.println s!"STAT calls_that_committed_a_write_tx={s.wtWriting}"
+  IO.println s!"STAT crash_images_inside_calls_checked={s.midChecked}"
   IO.println s!"STAT link_operations_on_forwarding_packages={s.linkOps}"
   IO.println s!"STAT forwarding_packages_checked_in_full={s.pkgDetailChecks}"
   IO.println s!"STAT forwarding_packages_checked_with_acks_or_decision={s.pkgPartial}"
